@@ -27,3 +27,67 @@ impl<'a> OrderedSet<&'a u32> {
         unimplemented!()
     }
 }
+
+// `#[derive(Clone)]` expansions (Verus gives derived Clone impls no specification): field-wise clone, written out.
+impl Clone for OrderedSet<u32> {
+    fn clone(&self) -> (r: Self)
+        ensures
+            r.data@ == self.data@,
+    {
+        OrderedSet { data: self.data.clone() }
+    }
+}
+
+impl Clone for List<u32> {
+    fn clone(&self) -> (r: Self)
+        ensures
+            r.data@ == self.data@,
+    {
+        List { data: self.data.clone() }
+    }
+}
+
+impl Clone for Invoke {
+    #[verifier::external_body]
+    fn clone(&self) -> (r: Self)
+        ensures
+            r == *self,
+    {
+        unimplemented!()
+    }
+}
+
+// instance at T = &State of three generic List functions (used for `configStateList` in exitStates); assumed with the
+// same shape as the verified u32 instance (see the note above on instances at reference types).
+impl<'a> List<&'a State> {
+    #[verifier::external_body]
+    pub fn new() -> (r: List<&'a State>)
+        ensures
+            r.data@.len() == 0,
+    {
+        unimplemented!()
+    }
+
+    #[verifier::external_body]
+    pub fn push(&mut self, t: &'a State)
+        ensures
+            final(self).data@ == old(self).data@.push(t),
+    {
+        unimplemented!()
+    }
+
+    #[verifier::external_body]
+    pub fn filter_by<F: Fn(&&'a State) -> bool>(&self, f: &F) -> (r: List<&'a State>)
+        requires
+            forall|i: int| 0 <= i < self.data@.len() ==> call_requires(*f, (&#[trigger] self.data@[i],)),
+        ensures
+            exists|keep: Seq<bool>|
+                keep.len() == self.data@.len() && (forall|i: int|
+                    0 <= i < keep.len() ==> call_ensures(*f, (&self.data@[i],), #[trigger] keep[i])) && r.data@ == mask_filter(
+                    self.data@,
+                    keep,
+                ),
+    {
+        unimplemented!()
+    }
+}
